@@ -178,8 +178,11 @@ def check(model, rep):
             t = il.text(corr[0].test)
             guard_ok = il.same(corr[0].test, ('not %s and not %s' % (cons, pd), 'not %s and not %s' % (pd, cons)))
             reval = [n for n in corr[0].body if isinstance(n, ast.Assign) and src(n.targets[0]) == pv]
-            last = corr[0].body[-1] if corr[0].body else None
-            rv_ok = len(reval) == 1 and reval[0] is last and isinstance(reval[0].value, ast.Call) and src(reval[0].value.func) == 'self.validate' \
+            # nothing that can change the platform may follow the re-validation inside the corrective branch
+            tail = corr[0].body[corr[0].body.index(reval[0]) + 1:] if len(reval) == 1 and reval[0] in corr[0].body else [None]
+            last_ok = all(t is not None and not any(isinstance(x, ast.Call) for x in ast.walk(t)) and not any(
+                isinstance(x, (ast.Attribute, ast.Subscript)) and isinstance(x.ctx, ast.Store) for x in ast.walk(t)) for t in tail)
+            rv_ok = len(reval) == 1 and last_ok and isinstance(reval[0].value, ast.Call) and src(reval[0].value.func) == 'self.validate' \
                 and len(reval[0].value.args) == 2 and src(reval[0].value.args[0]) == 'True' \
                 and isinstance(reval[0].value.args[1], ast.Constant) and reval[0].value.args[1].value >= k + 1
             acts = [c for s in corr[0].body for c in ast.walk(s) if isinstance(c, ast.Call) and isinstance(c.func, ast.Attribute)
@@ -197,7 +200,8 @@ def check(model, rep):
     for n in v.body():
         cp = cmp_parts(n.test, left=pl_) if isinstance(n, ast.If) else None
         if cp is not None and cp[1] == '>':
-            c = n.body[0] if n.body else None
+            cs = [x for x in n.body if isinstance(x, ast.Assign) and src(x.targets[0]) == acc]
+            c = cs[0] if len(cs) == 1 else None
             if isinstance(c, ast.Assign) and src(c.targets[0]) == acc and isinstance(c.value, ast.Call):
                 chain.append(('%s>%s' % (cp[0], cp[2]), src(c.value).replace(' ', '')))
     want = [('%s>%d' % (pl_, i), 'self.%s(%s,%s)' % (VALIDATORS[i][0], acc, pd_)) for i in range(4)]
